@@ -327,3 +327,126 @@ Proof.
   - destruct r2 as [|c' r2]; simpl in *; [lia|]. injection E as -> E.
     destruct (IH r2 E ltac:(lia)) as [t [-> Ht]]. exists t. split; [reflexivity | assumption].
 Qed.
+
+(* ---------- the manager layer: a registry state machine, theorems over ALL request histories ---------- *)
+Lemma zassoc_none_notin {A} k (l : list (Z * A)) : zassoc k l = None <-> ~ In k (map fst l).
+Proof.
+  induction l as [|[a v] l IH]; simpl; [tauto|]. destruct (Z.eqb_spec a k) as [->|Hne].
+  - split; [discriminate | intros H; exfalso; apply H; now left].
+  - rewrite IH. split; intros H; [intros [E|E]; [contradiction | now apply H] | intros E; apply H; now right].
+Qed.
+
+Lemma zassoc_perm_nodup {A} k (l l' : list (Z * A)) : Permutation l l' -> NoDup (map fst l) -> zassoc k l = zassoc k l'.
+Proof.
+  induction 1 as [|[a v] l l' _ IH|[a v] [b w] l|l l' l'' H1 IH1 H2 IH2]; intros Hn; simpl in *.
+  - reflexivity.
+  - inversion Hn; subst. destruct (a =? k); [reflexivity | now apply IH].
+  - inversion Hn as [|? ? Hb Hr]; subst. destruct (Z.eqb_spec a k) as [->|]; destruct (Z.eqb_spec b k) as [->|]; try reflexivity.
+    exfalso. apply Hb. now left.
+  - rewrite IH1 by assumption. apply IH2. eapply Permutation_NoDup; [|exact Hn]. now apply Permutation_map.
+Qed.
+
+Section ManagerProofs.
+  Variable K : Type.
+  Variable C : Type.
+  Variable mk : Z -> C -> str -> K.
+  Variable block : K -> Z -> Z.
+  Notation mstep := (mstep K C mk block).
+  Notation mrun := (mrun K C mk block).
+  Notation mgr_draw := (mgr_draw K C mk block).
+
+  Lemma mrun_cons g r rs : mrun g (r :: rs) = mrun (fst (mstep g r)) rs.
+  Proof. reflexivity. Qed.
+
+  (* the seed every stream carries is the manager's, for ever *)
+  Lemma mstep_seed g r : g_seed (fst (mstep g r)) = g_seed g.
+  Proof. destruct r as [dp c|m'|dp ca idx]; simpl; try reflexivity. now destruct (zassoc dp (g_dps g)). Qed.
+
+  Lemma mrun_seed rs : forall g, g_seed (mrun g rs) = g_seed g.
+  Proof. induction rs as [|r rs IH]; intros g; [reflexivity|]. now rewrite mrun_cons, IH, mstep_seed. Qed.
+
+  (* each decision point has at most one stream *)
+  Lemma mstep_nodup g r : NoDup (map fst (g_dps g)) -> NoDup (map fst (g_dps (fst (mstep g r)))).
+  Proof.
+    intros H. destruct r as [dp c|m'|dp ca idx]; simpl; try assumption.
+    destruct (zassoc dp (g_dps g)) eqn:E; simpl; [assumption|]. constructor; [|assumption]. now apply zassoc_none_notin.
+  Qed.
+
+  Lemma mrun_nodup rs : forall g, NoDup (map fst (g_dps g)) -> NoDup (map fst (g_dps (mrun g rs))).
+  Proof. induction rs as [|r rs IH]; intros g H; [assumption|]. rewrite mrun_cons. now apply IH, mstep_nodup. Qed.
+
+  (* a second request for an existing decision point is refused and changes nothing *)
+  Lemma mstep_duplicate g dp c c' : zassoc dp (g_dps g) = Some c -> mstep g (RGet dp c') = (g, ORefused ERandomness).
+  Proof. intros H. simpl. now rewrite H. Qed.
+
+  Lemma mstep_new g dp c : zassoc dp (g_dps g) = None ->
+    mstep g (RGet dp c) = ({| g_seed := g_seed g; g_map := g_map g; g_dps := (dp, c) :: g_dps g |}, OStream (g_seed g)).
+  Proof. intros H. simpl. now rewrite H. Qed.
+
+  (* a stream keeps the kind it was created with *)
+  Lemma mstep_flag_stable g r dp c : zassoc dp (g_dps g) = Some c -> zassoc dp (g_dps (fst (mstep g r))) = Some c.
+  Proof.
+    intros H. destruct r as [dp' c'|m'|dp' ca idx]; simpl; try assumption.
+    destruct (zassoc dp' (g_dps g)) eqn:E; simpl; [assumption|].
+    destruct (Z.eqb_spec dp' dp) as [->|]; [congruence | assumption].
+  Qed.
+
+  Lemma mrun_flag_stable rs : forall g dp c, zassoc dp (g_dps g) = Some c -> zassoc dp (g_dps (mrun g rs)) = Some c.
+  Proof. induction rs as [|r rs IH]; intros g dp c H; [assumption|]. rewrite mrun_cons. now apply IH, mstep_flag_stable. Qed.
+
+  (* draws of a stream are a function of the seed, the map and the stream's own kind - nothing else in the registry *)
+  Lemma mgr_draw_depends g1 g2 dp ca idx : g_seed g1 = g_seed g2 -> g_map g1 = g_map g2 ->
+    zassoc dp (g_dps g1) = zassoc dp (g_dps g2) -> mgr_draw g1 dp ca idx = mgr_draw g2 dp ca idx.
+  Proof. intros Hs Hm Hd. unfold Stream.mgr_draw. now rewrite Hs, Hm, Hd. Qed.
+
+  Definition creations (h : list (Z * bool)) : list (mreq C) := map (fun x => RGet (fst x) (snd x)) h.
+
+  Lemma mrun_map rs : forall g, g_map (mrun g rs) = run K (g_map g) (map_ops K C rs).
+  Proof.
+    induction rs as [|r rs IH]; intros g; [reflexivity|]. rewrite mrun_cons, IH.
+    destruct r as [dp c|m'|dp ca idx]; simpl; try reflexivity. now destruct (zassoc dp (g_dps g)).
+  Qed.
+
+  Lemma creations_map h : forall g, g_map (mrun g (creations h)) = g_map g.
+  Proof.
+    induction h as [|[a b] h IH]; intros g; [reflexivity|]. unfold creations. simpl map. rewrite mrun_cons.
+    fold (creations h). rewrite IH. simpl. now destruct (zassoc a (g_dps g)).
+  Qed.
+
+  (* after any list of creation requests the first request for a decision point decides *)
+  Lemma creations_lookup dp h : forall g,
+    zassoc dp (g_dps (mrun g (creations h))) =
+    match zassoc dp (g_dps g) with Some c => Some c | None => zassoc dp h end.
+  Proof.
+    induction h as [|[a b] h IH]; intros g.
+    - simpl. now destruct (zassoc dp (g_dps g)).
+    - unfold creations. simpl map. rewrite mrun_cons. fold (creations h). rewrite IH. simpl mstep.
+      destruct (zassoc a (g_dps g)) eqn:Ea; simpl.
+      + destruct (zassoc dp (g_dps g)) eqn:Ed; [reflexivity|].
+        destruct (Z.eqb_spec a dp) as [->|]; [congruence | reflexivity].
+      + destruct (Z.eqb_spec a dp) as [->|]; [now rewrite Ea | reflexivity].
+  Qed.
+
+  (* which other streams exist, and the order of creation, are irrelevant *)
+  Lemma creations_irrelevant g h1 h2 dp ca idx : g_dps g = [] -> zassoc dp h1 = zassoc dp h2 ->
+    mgr_draw (mrun g (creations h1)) dp ca idx = mgr_draw (mrun g (creations h2)) dp ca idx.
+  Proof.
+    intros Hg Hd. apply mgr_draw_depends.
+    - now rewrite !mrun_seed.
+    - now rewrite !creations_map.
+    - rewrite !creations_lookup, Hg. simpl. exact Hd.
+  Qed.
+
+  Lemma creation_order_irrelevant g h1 h2 dp ca idx : g_dps g = [] -> NoDup (map fst h1) -> Permutation h1 h2 ->
+    mgr_draw (mrun g (creations h1)) dp ca idx = mgr_draw (mrun g (creations h2)) dp ca idx.
+  Proof. intros Hg Hn Hp. apply creations_irrelevant; [assumption|]. now apply zassoc_perm_nodup. Qed.
+
+  (* any later history (creations, draws on any stream, position-preserving registrations) leaves a stream's answers alone *)
+  Lemma mgr_history_invariant g rs dp ca idx ds : stable_history K (g_map g) (map_ops K C rs) ->
+    mgr_draw g dp ca idx = Ok ds -> mgr_draw (mrun g rs) dp ca idx = Ok ds.
+  Proof.
+    intros Hs. unfold Stream.mgr_draw. destruct (zassoc dp (g_dps g)) as [c|] eqn:E; [|discriminate].
+    rewrite (mrun_flag_stable rs g dp c E), mrun_seed, mrun_map. intros H.
+    exact (history_invariant K block c (g_map g) (map_ops K C rs) _ idx ds Hs H).
+  Qed.
+End ManagerProofs.
